@@ -24,7 +24,7 @@ TLA_CP = "/opt/veriftools/tla/tla2tools.jar:/opt/veriftools/tla/CommunityModules
 BIG = 1000000
 FAM_MODULE = {"join": "JoinLike", "try_join": "JoinLike", "race": "Race", "race_ok": "Race", "merge": "Merge", "zip": "Zip",
               "chain": "Chain", "wait_until": "WaitUntil", "wait_until_stream": "WaitUntil",
-              "future_group": "Groups", "stream_group": "Groups", "co": "CoStream", "nest_join_join": "Nest", "nest_merge_merge": "NestStream", "nest_race_join": "NestRace", "nest_chain_merge": "NestChain", "nest_group_join": "NestGroup"}
+              "future_group": "Groups", "stream_group": "Groups", "co": "CoStream", "nest_join_join": "Nest", "nest_merge_merge": "NestStream", "nest_race_join": "NestRace", "nest_chain_merge": "NestChain", "nest_group_join": "NestGroup", "nest_merge_groups": "NestMG"}
 SKIP_EV = {"new", "built", "end"}
 
 
@@ -54,7 +54,7 @@ def cfg_for(new):
                  limit=new.get("limit", 0), take=new.get("take", -1), nmaps=new.get("nmaps", 0))
         c.update(bud)
         return mod, c, None
-    rdy = fam in ("merge", "zip", "future_group", "stream_group", "nest_join_join", "nest_merge_merge", "nest_race_join", "nest_chain_merge", "nest_group_join")
+    rdy = fam in ("merge", "zip", "future_group", "stream_group", "nest_join_join", "nest_merge_merge", "nest_race_join", "nest_chain_merge", "nest_group_join", "nest_merge_groups")
     if fam == "race_ok":
         shape = "tup" if cont in ("tup", "ext") else cont
     elif fam in ("future_group", "stream_group"):
@@ -131,7 +131,7 @@ def convert(paths, per_module_max=None, stride=1, per_file_max=None):
             if why is None:
                 if "tstart" in kinds:
                     why = "threaded run (order of concurrent wakes is not logged)"
-                elif "repoll" in kinds and (mod not in ("JoinLike", "Race", "Merge", "Zip", "Chain", "WaitUntil", "NestStream", "NestChain") or new["n"] == 0):
+                elif "repoll" in kinds and (mod not in ("JoinLike", "Race", "Merge", "Zip", "Chain", "WaitUntil", "NestStream", "NestChain", "NestMG") or new["n"] == 0):
                     why = "poll after the final result (unspecified, not modelled)"
                 elif "skip" in kinds:
                     why = "vector skipped by the harness"
@@ -205,7 +205,7 @@ def _convert_one(evs):
     if why is None:
         if "tstart" in kinds:
             why = "threaded run (order of concurrent wakes is not logged)"
-        elif "repoll" in kinds and (mod not in ("JoinLike", "Race", "Merge", "Zip", "Chain", "WaitUntil", "NestStream", "NestChain") or new["n"] == 0):
+        elif "repoll" in kinds and (mod not in ("JoinLike", "Race", "Merge", "Zip", "Chain", "WaitUntil", "NestStream", "NestChain", "NestMG") or new["n"] == 0):
             why = "poll after the final result (unspecified, not modelled)"
         elif "skip" in kinds:
             why = "vector skipped by the harness"
